@@ -469,9 +469,9 @@ func checkC14(c *Check) {
 	// ---- R14.4 transparency outside ddptypes ----
 	r4 := c.Rule("R14.4", "outside ddptypes, dynamic tests on ddptypes.Type values have a normalised operand", 8)
 	exempt := map[string]string{
-		"field ast.StructDecl.Type": "StructDecl.Type is only ever assigned a *StructType or *GenericStructType built by structDeclaration (never an alias)",
-		"typechecker.IsPublicType|assert-ok *ddptypes.StructType": "deliberate: an alias is looked up under its own name, a Kombination under its struct name",
-		"parser.(*parser).alias|assert *ddptypes.StructType":       "operand is stralias.Struct.Type or the instantiation GetInstantiatedStructType returned (a *StructType); triaged: a nil instantiation is impossible after checkAlias succeeded",
+		"field ast.StructDecl.Type":                                      "StructDecl.Type is only ever assigned a *StructType or *GenericStructType built by structDeclaration (never an alias)",
+		"typechecker.IsPublicType|assert-ok *ddptypes.StructType":        "deliberate: an alias is looked up under its own name, a Kombination under its struct name",
+		"parser.(*parser).alias|assert *ddptypes.StructType":             "operand is stralias.Struct.Type or the instantiation GetInstantiatedStructType returned (a *StructType); triaged: a nil instantiation is impossible after checkAlias succeeded",
 		"parser.(*parser).structDeclaration|assert *ddptypes.StructType": "operand is the &ddptypes.StructType{} literal assigned four lines above",
 	}
 	for _, rel := range []string{"src/ast", "src/ast/annotators", "src/parser", "src/parser/resolver", "src/parser/typechecker", "src/compiler", "cmd/kddp"} {
